@@ -105,31 +105,46 @@ def p8_music_lines(data):
     return out
 
 
-def encode_p8(cart):
-    """CartModel -> bytes of a .p8 file, the way PICO-8 writes one."""
+def encode_p8(cart, style=None):
+    """CartModel -> bytes of a .p8 file, the way PICO-8 writes one.
+
+    style (optional): {'omit_empty': bool, 'order': [section names]} - PICO-8
+    itself leaves out sections that hold only zeros, and nothing in the format
+    fixes the order of the data sections."""
+    style = style or {}
     out = [P8_HEADER, b'version %d\n' % cart['version'], b'__lua__\n']
     code = cart['code']
     out.append(code)
     if not code.endswith(b'\n'):
         out.append(b'\n')
-    out.append(b'__gfx__\n')
-    out.extend(p8_gfx_lines(cart[GFX]))
+    secs = {}
+    secs['gfx'] = [b'__gfx__\n'] + p8_gfx_lines(cart[GFX])
     if cart.get('label') is not None and cart['label'].get('p8') is not None:
-        out.append(b'__label__\n')
         lab = cart['label']['p8']          # 128*128 pixel values 0..15
-        for y in range(128):
-            out.append(b''.join(b'%x' % p for p in lab[y * 128:(y + 1) * 128])
-                       + b'\n')
-    out.append(b'\n__gff__\n')
-    for i in range(0, 0x100, 128):
-        out.append(_hex(cart[GFF][i:i + 128]) + b'\n')
-    out.append(b'__map__\n')
-    for i in range(0, 0x1000, 128):
-        out.append(_hex(cart[MAP][i:i + 128]) + b'\n')
-    out.append(b'__sfx__\n')
-    out.extend(p8_sfx_lines(cart[SFX]))
-    out.append(b'__music__\n')
-    out.extend(p8_music_lines(cart[MUSIC]))
+        secs['label'] = [b'__label__\n'] + [
+            b''.join(b'%x' % p for p in lab[y * 128:(y + 1) * 128]) + b'\n'
+            for y in range(128)]
+    secs['gff'] = [b'__gff__\n'] + [_hex(cart[GFF][i:i + 128]) + b'\n'
+                                     for i in range(0, 0x100, 128)]
+    secs['map'] = [b'__map__\n'] + [_hex(cart[MAP][i:i + 128]) + b'\n'
+                                     for i in range(0, 0x1000, 128)]
+    secs['sfx'] = [b'__sfx__\n'] + p8_sfx_lines(cart[SFX])
+    secs['music'] = [b'__music__\n'] + p8_music_lines(cart[MUSIC])
+    order = list(style.get('order') or
+                 ['gfx', 'label', 'gff', 'map', 'sfx', 'music'])
+    for name in ('gfx', 'label', 'gff', 'map', 'sfx', 'music'):
+        if name not in order:
+            order.append(name)
+    zero = {GFX: GFX, GFF: GFF, MAP: MAP}
+    for name in order:
+        if name not in secs:
+            continue
+        if style.get('omit_empty') and name in zero and \
+                not any(cart[zero[name]]):
+            continue                 # all zeros: PICO-8 omits the section
+        if name == 'gff' and not style.get('order'):
+            out.append(b'\n')
+        out.extend(secs[name])
     out.append(b'\n')
     return b''.join(out)
 
